@@ -20,7 +20,7 @@ pub struct History {
 }
 
 pub fn profile_for(keys: &[String], key: &str, wf: bool) -> Profile {
-    Profile { keys: keys.to_vec(), dir: Key::from_file_name(key).parent(), wf, ..Default::default() }
+    Profile { keys: keys.to_vec(), dir: crate::oracle::md::dir_of(key), wf, ..Default::default() }
 }
 
 pub fn gen_history(r: &mut Rng, wf: bool, max_steps: usize) -> History {
